@@ -53,10 +53,18 @@ def _run_hypothesis(sc, n, seed, matchers, shrink=True):
     recent = collections.deque(maxlen=40)
 
     def body(case):
-        for m in matchers:
-            if m(case):
-                stats.excluded_known += 1
+        if matchers and isinstance(case, dict) and "seq" in case:
+            # a call sequence: only the calls that fall under a known finding are left out, the rest of the sequence runs
+            kept = [c for c in case["seq"] if not any(m(c) for m in matchers)]
+            stats.excluded_known += len(case["seq"]) - len(kept)
+            if not kept:
                 return
+            case = {"seq": kept}
+        else:
+            for m in matchers:
+                if m(case):
+                    stats.excluded_known += 1
+                    return
         try:
             f = sc.run_case(case)
         except Discard:
